@@ -125,6 +125,20 @@ fn probe_locked(post: &Ledger, position: &Pubkey, token_account: &Pubkey, salt: 
             ("decrease_liquidity_v2", crate::ix::decrease_liquidity_v2(&la, p.liquidity.min(1).max(1), 0, 0)),
             ("reposition_liquidity_v2", crate::ix::reposition_liquidity_v2(&rep, nlo, nhi, p.liquidity, 0, 0, u64::MAX, u64::MAX)),
         ];
+        // adding stays allowed on a locked position - but an "addition" of 2^128 - x must not take liquidity away
+        for amount in [u128::MAX - p.liquidity + 1, u128::MAX, (1u128 << 127) + 1] {
+            let mut ff = f.clone();
+            let r = crate::rt::exec_tx_simple(&mut ff, &crate::rt::Tx { ixs: vec![crate::ix::increase_liquidity_v2(&la, amount, u64::MAX, u64::MAX)] });
+            cov.probe("locked_position_probes");
+            cov.eval(format!("locked_probe|increase_liquidity_v2 of a wrapping amount|{}|ok={}", label, r.ok));
+            if r.ok {
+                let q = ff.data(position).and_then(decode::position).map(|q| q.liquidity).unwrap_or(0);
+                if q < p.liquidity {
+                    out.push(viol("locked_position_withdrawn", idx, format!("increase_liquidity_v2 with liquidity amount {} succeeds on the locked position {} and takes its liquidity from {} to {}", amount, position, p.liquidity, q)));
+                    return;
+                }
+            }
+        }
         for (what, ixn) in attempts {
             if what == "decrease_liquidity" && (keys.prog_a != crate::ix::tok() || keys.prog_b != crate::ix::tok()) {
                 continue;
